@@ -6,14 +6,16 @@ from ..core import sig_of
 
 LEVEL = "model_checking"
 LEVEL_TEXT = ("TLC checks on bounded instances of the handle/object specification (2 objects of a base and a derived type, 3-4 handle slots of "
-              "both static types, every constructor / assignment / destructor / explicit refInc-refDec code path, all admitted moved-from outcomes; "
+              "static types IntrusivePtr<const Base> / <Base> / <Derived>, every constructor / assignment / destructor / explicit refInc-refDec code path, all admitted moved-from outcomes; "
               "a second instance in which Derived objects own a member handle `next`, with cascading destruction and assignment of a handle from the "
               "member of the very object it designates) that the counts the operations maintain always equal creator + live handles (pool and member) "
               "+ explicit references, that an object dies exactly in the step releasing its last reference and exactly once per incarnation; a "
               "further model shows conservation and single destruction for all interleavings of threads copying/dropping with atomic increments, "
               "and TLC refutes the same model with a load/store increment (negative control, required). Binding: every transition of the complete "
-              "state graphs of the 3-slot instances (slot types BBD, BDD; thorough: also BBDD) and of the chain instance (2 slots, 2 member-owning "
-              "objects), all histories up to a budgeted length and seeded random walks are replayed on the real IntrusivePtr/RefCountedObject with "
+              "state graphs of the 3-slot instances (slot types BBD, BDD, const-Base/Base/Derived; thorough: also BBDD) and of the chain instance "
+              "(2 slots, 2 member-owning objects), on three object layouts of the Derived type (single inheritance; the ref-counted base at a "
+              "non-zero offset; a virtual base - the last two make derived-to-base conversions adjust the pointer, mixed-type handle pairs "
+              "are compared in both operand orders after every conversion path), all histories up to a budgeted length and seeded random walks are replayed on the real IntrusivePtr/RefCountedObject with "
               "use counts, destructor log, handle and member contents and comparisons compared after every step - under ASan+UBSan with really "
               "freed pointees (memory errors become crash events) and, for the chain instance, also without sanitizers on quarantined pointee "
               "storage (early destruction shows as values); random 300-step executions over 6 slots / 4 objects and multi-threaded copy/drop "
@@ -23,7 +25,8 @@ LEVEL_NOTE = ("bounded: exhaustive parts use 2 objects x 2-4 slots, <= 1-2 outst
               "model is checked for 3 threads x <= 3-4 operations, the real concurrent executions are sampled (not schedule-controlled) and judged "
               "at quiescent points and by stamp order only; what a moved-from handle holds is left open (release / retain / swap) as long as the "
               "books balance, the generation model uses the outcome TLC identified from a probe execution; two empty handles comparing equal is "
-              "not constrained; handle-vs-raw-pointer comparisons do not compile and are not part of the API; trusted: TLC, the driver's own "
+              "not constrained; operator< is only required to be unordered exactly on equal handles and to agree with the order const-Base "
+              "handles to the same objects give; handle-vs-raw-pointer comparisons do not compile and are not part of the API; trusted: TLC, the driver's own "
               "bookkeeping of slots and its destructor log, g++/libstdc++, ASan/UBSan/TSan")
 TECHNIQUE = ("TLA+ ADT specification + TLC invariants/action properties; TLC-generated transition cover and histories replayed on the real objects; "
              "TLC trace validation of recorded sequential and multi-threaded executions; negative-control model; sanitizers as crash/race events")
@@ -33,7 +36,8 @@ API = "IntrusivePtr"
 MUTATORS = {"New", "CreatorDrop", "RefInc", "RefDec", "DefaultCtor", "RawCtor", "RawAssign", "CopyCtor", "ConvCopyCtor", "MoveCtor",
             "ConvMoveCtor", "CopyAssign", "ConvCopyAssign", "MoveAssign", "ConvMoveAssign", "Dtor"}
 MEMBER_ACTIONS = {"SetMember", "ClearMember", "CopyCtorFromMember", "CopyAssignFromMember", "MoveAssignFromMember"}
-TRACE_META = {"slots": "BBBDDD", "objs": "BDBD", "maxexp": 3, "members": True}
+TRACE_META = {"slots": "BBBDDC", "objs": "BDBD", "maxexp": 3, "members": True}
+CONVERSIONS = ["ConvCopyCtor", "ConvMoveCtor", "ConvCopyAssign", "ConvMoveAssign", "RawCtor", "RawAssign"]   # ways a handle gets a converted pointer
 KINDS = ["mc", "ma", "sm", "cmc", "cma"]
 WALK_CLASS = "src=member-of-dst-target,next=obj,last-ref,kills"      # cur = cur->next where cur held the last reference
 
@@ -60,13 +64,13 @@ PROBE = [
 # ---------------------------------------------------------------------------
 # generation: TLC's state graph of RefCountGen, exported edge by edge
 # ---------------------------------------------------------------------------
-def build_graph_from_edges(chk, policy, tag, cfg="RefCountGen.cfg"):
+def build_graph_from_edges(chk, policy, tag, cfg="RefCountGen.cfg", layout="single"):
     d = os.path.join(WORK, "graphs")
     os.makedirs(d, exist_ok=True)
     path = os.path.join(d, "%s-%d.ndjson" % (tag, os.getpid()))
     if os.path.exists(path):
         os.remove(path)
-    env = {"RC_EDGES": path}
+    env = {"RC_EDGES": path, "RC_LAYOUT": layout}
     for k in KINDS:
         env["RC_" + k.upper()] = policy[k]
     r = tla.run_tlc(os.path.join(SPEC, "RefCountGen.tla"), os.path.join(SPEC, cfg), workers=4, timeout=900, env=env, tag=tag)
@@ -124,9 +128,60 @@ def build_graph_from_edges(chk, policy, tag, cfg="RefCountGen.cfg"):
     return ag, r
 
 
-def gen_histories(chk, policy, budget, K_max, walks, walk_len, seed, tag, cfg="RefCountGen.cfg"):
-    ag, r = build_graph_from_edges(chk, policy, tag, cfg)
-    chk.add_model("RefCountGen/" + cfg, r, "generation instance (policy %s): %d abstract states, %d abstract transitions"
+def conversion_compare_paths(ag, meta, rnd, per_kind):
+    """Paths of TLC's graph of the shape  <shortest path to u> . conversion(u -> v) . Compare(v):  a handle receives a
+    pointer through one of the conversion paths (converting copy / move constructor or assignment, raw-pointer
+    constructor / assignment from a Derived* into a Base / const Base handle) and is then compared with a handle of
+    another static type.  Path selection only: every step and expectation is TLC's."""
+    from collections import deque
+    slots, objs = meta["slots"], meta["objs"]
+    parent = {}
+    dq = deque()
+    for s0 in ag.init:
+        parent[s0] = None
+        dq.append(s0)
+    while dq:
+        u = dq.popleft()
+        for step, v in ag.edges.get(u, []):
+            if v not in parent:
+                parent[v] = (u, step)
+                dq.append(v)
+
+    def path_to(u):
+        p = []
+        while parent[u] is not None:
+            u, step = parent[u]
+            p.append(step)
+        p.reverse()
+        return p
+
+    found = {k: [] for k in CONVERSIONS}
+    for u in sorted(parent):
+        for step, v in ag.edges.get(u, []):
+            a = step["a"]
+            if a not in found:
+                continue
+            sl = step["arg"]["s"]
+            if step["exp"]["ptr"][sl - 1] < 1:
+                continue                                  # the handle is empty afterwards
+            if a.startswith("Raw") and not (slots[sl - 1] != "D" and objs[step["arg"]["o"] - 1] == "D"):
+                continue                                  # only Derived* -> Base* / const Base*
+            for st2, w in ag.edges.get(v, []):
+                if st2["a"] == "Compare" and sl in (st2["arg"]["s"], st2["arg"]["t"]) and "types=same" not in st2["cls"] \
+                        and "one-empty" not in st2["cls"]:
+                    found[a].append((u, step, st2))
+    out, stats = [], {}
+    for a in CONVERSIONS:
+        pick = found[a] if len(found[a]) <= per_kind else rnd.sample(found[a], per_kind)
+        stats[a] = {"available": len(found[a]), "taken": len(pick),
+                    "same_object": sum(1 for _, _, c in pick if "same-object" in c["cls"])}
+        out += [path_to(u) + [step, c] for u, step, c in pick]
+    return out, stats
+
+
+def gen_histories(chk, policy, budget, K_max, walks, walk_len, seed, tag, cfg="RefCountGen.cfg", layout="single", meta=None, conv=0):
+    ag, r = build_graph_from_edges(chk, policy, tag, cfg, layout)
+    chk.add_model("RefCountGen/%s[%s]" % (cfg, layout), r, "generation instance (policy %s): %d abstract states, %d abstract transitions"
                   % (",".join("%s=%s" % (k, policy[k]) for k in KINDS), len(ag.states), ag.nedges))
     K = 1
     while K < K_max and adt.count_paths(ag, K + 1) <= budget:
@@ -136,7 +191,11 @@ def gen_histories(chk, policy, budget, K_max, walks, walk_len, seed, tag, cfg="R
     rw = adt.random_walks(ag, walks, walk_len, seed)
     info = {"abstract_states": len(ag.states), "abstract_transitions": ag.nedges, "all_histories_len": K if hs else 0,
             "all_histories": len(hs), "transition_cover": len(cover), "random_walks": len(rw), "walk_len": walk_len,
-            "policy": dict(policy)}
+            "policy": dict(policy), "layout": layout}
+    if conv:
+        cp, cstats = conversion_compare_paths(ag, meta, random.Random(seed), conv)
+        rw = rw + cp
+        info["conversion_then_compare"] = cstats
     return hs, cover, rw, info
 
 
@@ -359,11 +418,13 @@ def rand_actions(rnd, n, meta, policy=None):
     def conv(s, t):
         return "" if slots[s - 1] == slots[t - 1] else "Conv"
 
+    rank = {"D": 0, "B": 1, "C": 2}
+
     def converts(s, t):
-        return slots[s - 1] == "B" or slots[t - 1] == "D"
+        return rank[slots[s - 1]] >= rank[slots[t - 1]]
 
     def fits(s, o):
-        return o == 0 or slots[s - 1] == "B" or objs[o - 1] == "D"
+        return o == 0 or slots[s - 1] != "D" or objs[o - 1] == "D"
 
     S = list(range(1, ns + 1))
     O = list(range(1, no + 1))
@@ -465,7 +526,7 @@ def rand_actions(rnd, n, meta, policy=None):
             s = rnd.choice(used); h[s] = None
             a = {"a": name, "arg": {"s": s}}
         elif name == "SetMember":
-            o = rnd.choice(owners); t = rnd.choice(used); mem[o] = h[t]
+            o = rnd.choice(owners); t = rnd.choice([x for x in used if slots[x - 1] != "C"] or used); mem[o] = h[t]
             a = {"a": name, "arg": {"o": o, "t": t}}
         elif name == "ClearMember":
             o = rnd.choice(owners); mem[o] = 0
@@ -625,30 +686,53 @@ def run(chk, replay=None):
     if policy is not None:
         chk.log("moved-from policy determined by TLC from the probe: %s" % policy)
         chk.cov["moved_from_policy"] = policy
-        # universes: (cfg, driver meta, budget for all histories up to K, random walks, pointee storage modes)
-        flat = {"objs": "BD", "maxexp": 1, "members": False}
-        plan = [("RefCountGen.cfg", dict(flat, slots="BBD"), 45000 if quick else 1400000, 1500 if quick else 15000, ["free"]),
-                ("RefCountGen_BDD.cfg", dict(flat, slots="BDD"), 0, 1000 if quick else 10000, ["free"]),
+        # universes: cfg, driver meta (slot / object types, object layout), budget for all histories up to K, random walks,
+        # sampled conversion-then-compare paths per conversion kind, pointee storage modes
+        def U(cfg, slots, objs, layout, budget, walks, conv=0, modes=("free",), maxexp=1, members=False):
+            return {"cfg": cfg, "meta": {"slots": slots, "objs": objs, "maxexp": maxexp, "members": members, "layout": layout},
+                    "budget": budget, "walks": walks, "conv": conv, "modes": list(modes)}
+        plan = [U("RefCountGen.cfg", "BBD", "BD", "single", 45000 if quick else 1400000, 1500 if quick else 15000),
+                # layouts in which the derived-to-base conversion changes the address
+                U("RefCountGen_BDD.cfg", "BDD", "BD", "multi", 0, 1000 if quick else 10000, conv=60 if quick else 300),
+                U("RefCountGen_CBD.cfg", "CBD", "DD", "multi", 0, 1000 if quick else 10000, conv=150 if quick else 600),
                 # objects that own a handle: values with quarantined pointee storage, memory safety with really freed storage
-                ("RefCountGen_chain.cfg", {"slots": "BB", "objs": "DD", "maxexp": 0, "members": True}, 30000 if quick else 250000,
-                 1000 if quick else 10000, ["quarantine", "free"])]
+                U("RefCountGen_chain.cfg", "BB", "DD", "single", 30000 if quick else 250000, 1000 if quick else 10000,
+                  modes=("quarantine", "free"), maxexp=0, members=True)]
         if not quick:
-            plan.append(("RefCountGen_BBDD.cfg", dict(flat, slots="BBDD"), 0, 10000, ["free"]))
+            plan += [U("RefCountGen_BBDD.cfg", "BBDD", "BD", "multi", 0, 10000, conv=300),
+                     U("RefCountGen_CBD.cfg", "CBD", "DD", "virtual", 100000, 10000, conv=600),
+                     U("RefCountGen.cfg", "BBD", "BD", "virtual", 0, 5000, conv=300),
+                     U("RefCountGen_CBD.cfg", "CBD", "DD", "single", 0, 5000),
+                     U("RefCountGen_chain.cfg", "BB", "DD", "multi", 0, 5000, modes=("quarantine", "free"), maxexp=0, members=True)]
         chk.cov["generation"] = {}
         classes = set()
         storm = False
-        for cfg, meta, budget, walks, modes in plan:
-            uni = meta["slots"] + "/" + meta["objs"]
-            hs, cover, rw, info = gen_histories(chk, policy, budget, 6, walks=walks, walk_len=40, seed=chk.seed, tag="c08-gen-" + meta["slots"] + meta["objs"], cfg=cfg)
+        adjusted = {"same-object": 0, "different-objects": 0}
+        convstats = {}
+        for u in plan:
+            cfg, meta, budget, walks, modes = u["cfg"], u["meta"], u["budget"], u["walks"], u["modes"]
+            uni = "%s/%s[%s]" % (meta["slots"], meta["objs"], meta["layout"])
+            hs, cover, rw, info = gen_histories(chk, policy, budget, 6, walks=walks, walk_len=40, seed=chk.seed,
+                                                tag="c08-gen-" + meta["slots"] + meta["objs"] + meta["layout"], cfg=cfg,
+                                                layout=meta["layout"], meta=meta, conv=u["conv"])
             allh = hs + cover + rw
             chk.count_actions(allh)
             classes |= set((st["a"], st.get("cls")) for h in cover for st in h[-1:])
             chk.cov["generation"][uni] = info
+            for h in allh:
+                for st in h:
+                    if st["a"] == "Compare" and st["cls"].endswith(",adjusted"):
+                        for k in adjusted:
+                            if k in st["cls"]:
+                                adjusted[k] += 1
+            for k, v in (info.get("conversion_then_compare") or {}).items():
+                if meta["layout"] != "single":
+                    convstats[k] = convstats.get(k, 0) + v["same_object"]
             for mode in modes:
                 if len(modes) > 1 and mode == "free":
                     allh = cover + rw      # the second pass looks for memory errors: one history per transition and the walks
                 dmeta = dict(meta, quarantine=(mode == "quarantine"))
-                tag = "c08-seq-%s%s-%s" % (meta["slots"], meta["objs"], mode)
+                tag = "c08-seq-%s%s%s-%s" % (meta["slots"], meta["objs"], meta["layout"], mode)
                 # a first wave of 2000 sampled histories: if the code under test aborts in many of them (every abort costs a
                 # sanitizer report and a fresh child), the verdict is already established and the bulk is not run
                 pick = set(rnd.sample(range(len(allh)), min(2000, len(allh))))
@@ -666,9 +750,13 @@ def run(chk, replay=None):
             if storm:
                 break
             chk.cov["distinct_nontrivial"] += adtcheck._nontrivial_distinct(allh, MUTATORS | MEMBER_ACTIONS)
-            if meta["slots"] == "BBD":
+            if uni == "BBD/BD[single]":
                 chk.add_sample({"kind": "history", "object": "IntrusivePtr<Base>/<Derived>", "steps": cover[len(cover) // 2]})
-            if meta["members"]:
+            if uni == "CBD/DD[multi]":
+                adj = [h for h in cover if h[-1]["a"] == "Compare" and h[-1]["cls"] == "types=Base/Derived,same-object,adjusted"]
+                if adj:
+                    chk.add_sample({"kind": "history", "object": "IntrusivePtr<Node> == Ref<Leaf>, Leaf : Tag, Node", "steps": min(adj, key=len)})
+            if meta["members"] and meta["layout"] == "single":
                 walk = [h for h in cover if h[-1]["a"] == "CopyAssignFromMember" and h[-1].get("cls") == WALK_CLASS]
                 if walk:
                     chk.add_sample({"kind": "history", "object": "chain walk cur = cur->next on the last reference", "steps": min(walk, key=len)})
@@ -676,24 +764,43 @@ def run(chk, replay=None):
             chk.require_actions(sorted(MUTATORS | MEMBER_ACTIONS | {"Bool", "Arrow", "Compare"}))
         need = [("CopyAssign", "self,obj"), ("MoveAssign", "self,obj"), ("RawAssign", "arg=null,dst=obj"), ("MoveAssign", "src=null,dst=obj"),
                 ("ConvCopyCtor", "src=obj,dst=new"), ("Dtor", "obj,kills"), ("CreatorDrop", "last,kills"), ("RefDec", "last,kills"),
-                ("Compare", "types=mixed,different-objects"), ("Compare", "types=same,different-objects"),
+                ("Compare", "types=same,different-objects"), ("Compare", "types=same,same-object"),
+                ("Compare", "types=Base/Derived,different-objects"), ("Compare", "types=Derived/Base,same-object"),
+                # handles of different static types whose pointers differ for the same object, both operand orders
+                ("Compare", "types=Base/Derived,same-object,adjusted"), ("Compare", "types=Derived/Base,same-object,adjusted"),
+                ("Compare", "types=CBase/Derived,same-object,adjusted"), ("Compare", "types=Derived/CBase,same-object,adjusted"),
+                ("Compare", "types=Base/Derived,different-objects,adjusted"), ("Compare", "types=Derived/CBase,different-objects,adjusted"),
+                ("Compare", "types=CBase/Base,same-object"), ("Compare", "types=Base/CBase,different-objects"),
                 # the handle assigned from lives inside the object whose last reference the assignment releases
                 ("CopyAssignFromMember", WALK_CLASS), ("MoveAssignFromMember", WALK_CLASS),
                 ("CopyAssignFromMember", "src=member-of-dst-target,next=null,last-ref,kills"),
-                ("SetMember", "val=self,old=null"), ("Dtor", "obj,kills")]
+                ("SetMember", "val=self,old=null")]
         missing = [c for c in need if c not in classes]
         if missing and not storm:
             raise InfraError("vacuity guard: input classes never generated: %s" % missing)
+        # comparisons of handles holding different addresses for one object: enough of them, reached through every conversion path
+        chk.cov["adjusted_mixed_type_compares"] = dict(adjusted, after_conversion=convstats)
+        if not storm:
+            thin = [k for k in CONVERSIONS if convstats.get(k, 0) < 10]
+            if adjusted["same-object"] < 300 or adjusted["different-objects"] < 300 or thin:
+                raise InfraError("vacuity guard: too few comparisons of adjusted mixed-type handle pairs: %s; conversion paths lacking a "
+                                 "same-object compare: %s" % (adjusted, thin))
         chk.cov["input_classes_covered"] = len(classes)
         chk.cov["cascades_generated"] = sum(1 for a, c in classes if c and c.endswith(",kills"))
 
     # 3. code -> spec: random long executions over the larger universe
     nexec = 24 if quick else 240
     acts = [rand_actions(rnd, 300, TRACE_META, policy) for _ in range(nexec)]
-    half = nexec // 2          # first half with quarantined pointee storage (values), second half with freed storage (ASan)
-    acc, rej, rexecs = record_validate(chk, exe_plain, acts[:half], "c08-rand-quarantine", API, isolate=4, meta=dict(TRACE_META, quarantine=True))
-    acc2, rej2, rexecs2 = record_validate(chk, exe, acts[half:], "c08-rand-free", API, isolate=4, meta=dict(TRACE_META, quarantine=False))
-    rej, rexecs = rej + rej2, rexecs + rexecs2
+    # quarantined pointee storage without sanitizers (values) on the pointer-adjusting multi layout; freed storage under
+    # ASan+UBSan on the virtual-base layout (thorough: also the single-inheritance layout)
+    parts = [("quarantine", "multi", exe_plain), ("free", "virtual", exe)] + ([] if quick else [("free", "single", exe)])
+    rej, rexecs = [], []
+    for i, (mode, layout, drv) in enumerate(parts):
+        lo, hi = i * nexec // len(parts), (i + 1) * nexec // len(parts)
+        a1, r1, e1 = record_validate(chk, drv, acts[lo:hi], "c08-rand-%s-%s" % (mode, layout), API, isolate=4,
+                                     meta=dict(TRACE_META, quarantine=(mode == "quarantine"), layout=layout))
+        rej += r1
+        rexecs += e1
     tstat = {"performed": {}, "refused": 0, "destructions": 0}
     for ev in rexecs:
         for e in ev:
